@@ -283,7 +283,14 @@ def _from_json(v):
     return v
 
 
-def _mk(name: str, *, extra=None, **opts):
+class _FilterMixin:
+    """filter_context inherited from a mixin, not defined in the task class body (TH)."""
+
+    def filter_context(self, context):
+        return _filter_even(self, context)
+
+
+def _mk(name: str, *, extra=None, bases=(), **opts):
     ns: dict[str, Any] = {
         '__annotations__': {'label': int, **{f: Any for f in FIELDS}},
         **{f: None for f in FIELDS},
@@ -292,7 +299,7 @@ def _mk(name: str, *, extra=None, **opts):
         '__qualname__': name,
     }
     ns.update(extra or {})
-    cls = type(name, (), ns)
+    cls = type(name, bases, ns)
     return labtech.task(**opts)(cls)
 
 
@@ -306,9 +313,10 @@ TF = _mk('TF', extra={'filter_context': _filter_even})
 TP = _mk('TP', extra={'post_init': _post_init})
 TG = _mk('TG', extra={'filter_context': _filter_counting})
 TX = _mk('TX', extra={'filter_context': _filter_faulty})
+TH = _mk('TH', bases=(_FilterMixin,))
 TJ = _mk('TJ', cache=JsonCache())
 T2 = _mk('T2', cache=labtech.cache.PickleCache(pickle_protocol=2))
 
-TYPES = {c.__name__: c for c in (TA, TB, TC, TD, TN, TM, TF, TP, TJ, T2, TG, TX)}
+TYPES = {c.__name__: c for c in (TA, TB, TC, TD, TN, TM, TF, TP, TJ, T2, TG, TX, TH)}
 MAX_PARALLEL = {n: c._lt.max_parallel for n, c in TYPES.items()}
 CACHEABLE = {n: not isinstance(c._lt.cache, labtech.cache.NullCache) for n, c in TYPES.items()}
